@@ -168,7 +168,6 @@ Section Model.
           let newavg := new_minavg minavg allhigh numlow in
           match rec newmax minchange newavg newtarget low with
           | (br, Ok lowsel) => Some (BrTopUp br, Ok (fold_left (fun s c => push c s) (cs_list lowsel) allhigh))
-          | (BrFuel, _) => Some (BrFuel, Panic 9)
           | (_, Panic p) => Some (BrFuel, Panic p)
           | (_, Err _) => topup rec maxin minchange minavg target cutoff low hi k' (numlow + 1)
           end
@@ -248,7 +247,6 @@ Section Model.
           let newavg := new_minavg_old f minavg allhigh numlow in
           match rec newmax minchange newavg newtarget low with
           | (br, Ok lowsel) => Some (BrTopUp br, Ok (fold_left (fun s c => push c s) (cs_list lowsel) allhigh))
-          | (BrFuel, _) => Some (BrFuel, Panic 9)
           | (_, Panic p) => Some (BrFuel, Panic p)
           | (_, Err _) => topup_old f rec maxin minchange minavg target cutoff low hi k' (numlow + 1)
           end
